@@ -22,6 +22,26 @@ def run_scenarios(name, scs, timeout=1500):
         os.remove(pout)
     rc, out, dt = C.run_harness(["program", "-out", pout, pin], timeout=timeout)
     res = C.read_jsonl(pout) if os.path.exists(pout) else []
+    if rc != 0 and len(res) < len(scs):
+        # the harness process itself went down (a fatal runtime error or an unrecovered panic in a goroutine of the program
+        # under test takes every scenario of the process with it): run the scenarios that have no result yet one per
+        # child process, so that the one that kills its process is identified and reported as crashed
+        rest = [dict(s, isolate=True) for s in scs[len(res):]]
+        pin2, pout2 = pin + ".rest", pout + ".rest"
+        with open(pin2, "w") as f:
+            for s in rest:
+                f.write(json.dumps(s) + "\n")
+        if os.path.exists(pout2):
+            os.remove(pout2)
+        rc2, out2, dt2 = C.run_harness(["program", "-out", pout2, pin2], timeout=timeout)
+        res2 = C.read_jsonl(pout2) if os.path.exists(pout2) else []
+        if rc2 == 0 and len(res2) == len(rest):
+            with open(pout, "a") as f:
+                for r in res2:
+                    f.write(json.dumps(r) + "\n")
+            return res + res2, dt + dt2
+        raise C.Fail("harness program failed (rc=%s, %d/%d results) and again with one child process per remaining scenario (rc=%s): %s" %
+                     (rc, len(res), len(scs), rc2, (out + out2)[-1500:]))
     if rc != 0 or len(res) != len(scs):
         raise C.Fail("harness program failed (rc=%s, %d/%d results): %s" % (rc, len(res), len(scs), out[-1500:]))
     return res, dt
@@ -195,6 +215,9 @@ def lifecycle_scenario(i, cause, point, pending, opts=None, after_api=False, bef
     # pending work
     if point == "init":
         modes_history = None    # nothing can be processed before Init has returned
+    if pending == "flood":
+        # more never-returning commands in flight than any plausible bound on concurrently running commands
+        sc["init"] = batch(*[cmd(2000 + k, block="forever") for k in range(300)])
     if pending in ("forever", "all"):
         # (a batch from Init would arrive as a BatchMsg and collide with the pause of point "batch")
         sc["init"] = cmd(901, block="forever") if point == "batch" else batch(cmd(901, block="forever"), cmd(902, ret=U(50)))
